@@ -100,9 +100,14 @@ pub fn declare_var(solver: &mut Solver, vars: &mut Vars, d: &VarDecl, name: Opti
             vars.lits.push(None);
         }
         VarKind::Lit => {
-            let lit = match name {
-                Some(n) => solver.new_named_literal(n),
-                None => solver.new_literal(),
+            let index = vars.ids.len();
+            let def = crate::config::LIT_DEFS.with(|d| d.borrow().iter().find(|(r, _)| *r == index).map(|(_, a)| *a));
+            let lit = match (def, name) {
+                // the literal of a predicate over an earlier variable (as the FlatZinc front-end
+                // creates for reified set membership): the solver links the two itself
+                (Some(a), _) if a.var() < index => solver.new_literal_for_predicate(vars.pred(&a)),
+                (_, Some(n)) => solver.new_named_literal(n),
+                (_, None) => solver.new_literal(),
             };
             let id = DomainId::new(vars.ids.len() as u32 + 1);
             vars.ids.push(id);
